@@ -9,6 +9,7 @@ Segment forms (tuples):
   ("KW", inverted, keyword, params)      params: list of str
   ("COLL", op, [segments])      op in "", "+", "-", "&"
 """
+import re
 OPS = ["=", "^", "$", "%", ">", "<", ">=", "<=", "=~"]
 SPECIALS_DOT = set(". [ ] ( ) ' \" ^ $ % \\".split()) | {" "}
 KEYWORDS = ["has_child", "name", "max", "min", "parent", "unique", "distinct"]
@@ -227,6 +228,8 @@ def doc_vocab(data):
             s = str(n)
             if s not in terms and len(s) < 12:
                 terms.append(s)
+            if isinstance(n, float) and not isinstance(n, bool) and re.match(r"^-?[0-9]+\.[0-9]+$", s) and s + "0" not in terms:
+                terms.append(s + "0")         # the same number in a non-canonical decimal spelling (1.50)
     walk(data)
     return {"keys": keys[:12], "terms": terms[:12], "anchors": anchors, "maxlen": maxlen[0]}
 
